@@ -1,6 +1,6 @@
 (* C15_Check.v — correspondence checker for C15: evaluates the model on the inputs the
    implementation ran, and the specification on the outputs the implementation produced. *)
-From Verif Require Export Base C15_Model.
+From Verif Require Export Base C15_Model C15_Scan.
 Open Scope Z_scope.
 
 Definition rows_eqb := zzlist_eqb.
@@ -18,6 +18,7 @@ Record case := mk_case {
   (* further destination kinds *)
   o_ptrs : list row;                      (* Find into a slice of pointers *)
   o_array : list row;                     (* Find into a pre-filled array: the slots that are not zero afterwards *)
+  o_reused : list row; o_reused_ra : Z;   (* Find into a slice that already holds 3 records (capacity 8) *)
   o_single : option row; o_single_ra : Z; (* Find into one struct: the first row *)
   o_prim : option Z; o_prim_ra : Z;       (* Select(id).Scan into one integer: keeps the last row *)
   o_scanmaps : list row; o_scanmaps_ra : Z;   (* Scan into a slice of maps *)
@@ -44,19 +45,29 @@ Record case := mk_case {
 Definition has_lops (c : case) := match c_lops c with [] => false | _ => true end.
 Definition bs_run (c : case) := 0 <? c_bs c.
 
+(* the harness's destinations: an array of 16 slots and a slice of 3 records, both holding
+   records with negative keys before the call *)
+Definition array_len : nat := 16.
+Definition junk : list row := [(-3, -3); (-4, -3); (-5, -3)].
+Definition dest_eqb (obs : list row) (obs_ra : Z) (s : sstate) : bool :=
+  rows_eqb obs (s_dest s) && (obs_ra =? s_ra s).
+
 Definition model_agrees (c : case) : bool :=
   let st := apply_lops (c_lops c) in
   let f := find (c_tbl c) (c_cond c) (c_ord c) (st_of st) in
-  rows_eqb (o_find c) f
-  && (o_find_ra c =? Z.of_nat (length f))
-  && rows_eqb (o_maps c) f && rows_eqb (o_rows c) f && rows_eqb (o_scan c) f
-  && rows_eqb (o_ptrs c) f && rows_eqb (o_array c) f
-  && rows_eqb (o_scanmaps c) f && (o_scanmaps_ra c =? Z.of_nat (length f)) && rows_eqb (o_rowsmaps c) f
+  (* the statement's rows [f] go through scan.go's dispatch on the destination kind *)
+  dest_eqb (o_find c) (o_find_ra c) (scan DStructSlice [] f)
+  && rows_eqb (o_maps c) (s_dest (scan DMapSlice [] f))
+  && rows_eqb (o_rows c) f && rows_eqb (o_scan c) (s_dest (scan DStructSlice [] f))
+  && rows_eqb (o_ptrs c) (s_dest (scan DPtrSlice [] f))
+  && rows_eqb (o_array c) (s_dest (scan (DArray array_len) junk f))
+  && dest_eqb (o_reused c) (o_reused_ra c) (scan DStructSlice junk f)
+  && dest_eqb (o_scanmaps c) (o_scanmaps_ra c) (scan DMapSlice [] f) && rows_eqb (o_rowsmaps c) f
   && orow_eqb (o_firstmap c) (first_ (c_tbl c) (c_cond c) (c_ord c) st)
   && orow_eqb (o_lastmap c) (last_ (c_tbl c) (c_cond c) (c_ord c) st)
   && orow_eqb (o_takemap c) (take_ (c_tbl c) (c_cond c) (c_ord c) st)
-  && orow_eqb (o_single c) (hd_error f) && (o_single_ra c =? (if match f with [] => true | _ => false end then 0 else 1))
-  && option_eqb Z.eqb (o_prim c) (option_map fst (hd_error (rev f))) && (o_prim_ra c =? Z.of_nat (length f))
+  && orow_eqb (o_single c) (hd_error (s_dest (scan DStruct [] f))) && (o_single_ra c =? s_ra (scan DStruct [] f))
+  && option_eqb Z.eqb (o_prim c) (option_map fst (hd_error (s_dest (scan DPrim [] f)))) && (o_prim_ra c =? s_ra (scan DPrim [] f))
   && zlist_eqb (o_pluck_id c) (map fst f) && zlist_eqb (o_pluck_v c) (map snd f)
   && (has_lops c || (o_count c =? count (c_tbl c) (c_cond c)))
   && orow_eqb (o_first c) (first_ (c_tbl c) (c_cond c) (c_ord c) st)
@@ -99,7 +110,9 @@ Definition spec_holds (c : case) : bool :=
                   match ref_lim (c_lops c) with Some n => firstn (Z.to_nat n) after | None => after end))
   && rows_eqb (o_maps c) f && rows_eqb (o_rows c) f && rows_eqb (o_scan c) f
   && zlist_eqb (o_pluck_id c) (map fst f) && zlist_eqb (o_pluck_v c) (map snd f)
-  && rows_eqb (o_ptrs c) f && rows_eqb (o_array c) f
+  && rows_eqb (o_ptrs c) f && rows_eqb (o_array c) (firstn array_len f)
+  (* a destination that held records before reports the rows of this call only *)
+  && rows_eqb (o_reused c) f && (o_reused_ra c =? Z.of_nat (length f))
   && rows_eqb (o_scanmaps c) f && (o_scanmaps_ra c =? Z.of_nat (length f)) && rows_eqb (o_rowsmaps c) f
   (* single-record finders agree whatever the destination kind (struct or map), incl. not-found *)
   && orow_eqb (o_firstmap c) (o_first c) && orow_eqb (o_lastmap c) (o_last c) && orow_eqb (o_takemap c) (o_take c)
